@@ -23,8 +23,12 @@ G = {}
 SENTINEL = ("sentinel", "earlier entry", None)
 
 
+HOSTILE_WORDS = ["{A}", "{0}", "%s", "%(x)s", "{", "}}", "\\N{X}", "${x}", "<b>", "a&b", "'q\"", "{:>9}", "%", "\\", "{a.b}", "[0]"]
+
+
 def words(n, seed=0):
-    pool = ["alpha", "beta", "gamma", "delta", "x", "long-word", "été", "data"]
+    """n words; when G['hostile'] is set, words that mean something to str.format, %-formatting, templates, XML"""
+    pool = HOSTILE_WORDS if G.get("hostile") else ["alpha", "beta", "gamma", "delta", "x", "long-word", "été", "data"]
     return " ".join(pool[(i + seed) % len(pool)] for i in range(n))
 
 
@@ -317,6 +321,7 @@ def w_profiles(idx):
     for i in idx:
         Node.store.clear()
         p = G["profiles"][i]
+        G["hostile"] = (i % 4 == 1)
         root = build(p, t, i)
         try:
             validate.tree(root)
@@ -329,13 +334,15 @@ def w_profiles(idx):
             e.add_attribute("system", "s")
             e.add_child(root)
             root = e
-        evs.append(record_eval(root, "warnings", {"profile": p}))
+        evs.append(record_eval(root, "warnings", {"profile": p, "hostile_words": bool(G.get("hostile"))}))
         if i % 2 == 0:
             Node.store.clear()
+            G["hostile"] = (i % 8 == 2)
             r2 = build(p, t, i)
             shuffle_children(r2, random.Random(i))
             if unambiguous(r2):
                 evs.append(record_eval(r2, "warnings", {"profile": p, "variant": "children shuffled"}, node_level=True))
+    G["hostile"] = False
     return evs, invalid
 
 
